@@ -206,7 +206,7 @@ class Builder:
 
 def gen_model(rng, d, arith, allow=None):
     fams = [("linear", 28), ("hash", 28), ("inter", 8), ("const", 5), ("multi", 18), ("zerosum", 5), ("riverlabel", 8)]
-    if arith == "npfloat":
+    if arith in ("npfloat", "npfloat32"):
         fams = [f for f in fams if f[0] != "zerosum"]
     if arith == "exact":
         # the real RiverWrapper emits Python floats (0./1.), so the library averages them in float arithmetic
@@ -219,7 +219,7 @@ def gen_model(rng, d, arith, allow=None):
         m["labels"] = rng.randint(2, 4)
         m["grow"] = rng.random() < 0.7
         m["omit"] = fam == "multi" and rng.random() < 0.5
-        if arith == "npfloat":
+        if arith in ("npfloat", "npfloat32"):
             # NumPy scalars do not raise on division by zero (C12's territory, not claimed): keep the label
             # values strictly positive so the normaliser of the marginal prediction cannot be zero
             m["omit"] = False
